@@ -86,6 +86,11 @@ func (f *fileDecorator) fragment(node ast.Node) {
 
 			// avoid newlines inside multi-line (back-quoted) strings or bad nodes
 			for _, frag := range f.fragments {
+				if f.Fset.File(frag.Position()) != f.Fset.File(astf.Pos()) {
+					// when a package is decorated the list holds the fragments of all its files;
+					// line numbers of other files say nothing about this one
+					continue
+				}
 				switch frag := frag.(type) {
 				case *stringFragment:
 					if !strings.HasPrefix(frag.String, "`") {
